@@ -441,7 +441,24 @@ func c14Exec(c *c14In) (o rt.Outcome, why string) {
 	sig0 := append([]byte(nil), c.Sig...)
 	pk0 := append([]byte(nil), c.PK...)
 	nilMsg, nilSig := c.Msg == nil, c.Sig == nil
-	msg, sig := c.Msg, c.Sig
+	// the slices handed to the library have spare capacity filled with canary bytes: nothing may be written there
+	const canary = "CANARYCANARYCANA"
+	withCanary := func(b []byte) ([]byte, []byte) {
+		if b == nil {
+			return nil, nil
+		}
+		full := make([]byte, len(b)+len(canary))
+		copy(full, b)
+		copy(full[len(b):], canary)
+		return full[:len(b):len(full)], full
+	}
+	msg, msgFull := withCanary(c.Msg)
+	sig, sigFull := withCanary(c.Sig)
+	defer func() {
+		if why == "" && ((msgFull != nil && string(msgFull[len(msg):]) != canary) || (sigFull != nil && string(sigFull[len(sig):]) != canary)) {
+			why = c.EP + " wrote into the spare capacity behind a caller's slice"
+		}
+	}()
 	noPanicAllowed := false
 	switch c.EP {
 	case "xmss.Verify":
